@@ -720,6 +720,76 @@ func e6MidFilteredCase(seed uint64, n int, race bool) Case {
 	}}
 }
 
+
+// e6FilteredRootCase: the publisher's own cache has a content-dependent filter
+// (as a controller built with Builder.Filter), so objects leave the cache by
+// being relabelled, not only by being deleted.  Every subscriber reads its
+// cache (Get and List alternately) on each event it receives: never an older
+// version than it has been told about, and no object it has been told is gone.
+func e6FilteredRootCase(seed uint64, n int) Case {
+	id := fmt.Sprintf("E6/filtered-root/%d/%d", seed, n)
+	return Case{ID: id, Desc: map[string]interface{}{"seed": seed, "n": n, "what": "root cache with a label filter; consumers read their cache on every event"}, Bubble: true, Run: func(r *Res) {
+		rng := kit.NewRng(kit.Mix(seed, uint64(n)+6800))
+		core := kit.NewCore(&kit.Plan{Seed: rng.U64(), PYield: 100, PSleep: 10, MaxSleep: 30 * time.Microsecond})
+		F := kit.TLabels(map[string]string{"l": "x"})
+		g := newRootRig(core, F)
+		defer g.stop(r, "C12")
+		g.root.MakeReady()
+		pub := g.root.Publisher()
+		var mirs []*mirror
+		for i := 0; i < 3; i++ {
+			var sub kcache.Subscription
+			var err error
+			if i == 2 {
+				var cl kcache.Controller
+				if cl, err = pub.Clone(); err == nil {
+					sub, err = cl.Subscribe()
+				}
+			} else {
+				sub, err = pub.Subscribe()
+			}
+			if err != nil {
+				r.V("C05", "subscribe-error", "%v", err)
+				return
+			}
+			mirs = append(mirs, startMirror(fmt.Sprintf("subscriber-%d", i), sub.Events(), sub.Ready(), sub.Cache()))
+		}
+		g.barrier()
+		for _, m := range mirs {
+			m.seed(kit.Snap{})
+		}
+		names := []string{"a", "b", "c", "d"}
+		for i := 0; i < 200; i++ {
+			nm := names[rng.Intn(len(names))]
+			lab := map[string]string{"l": []string{"x", "x", "y"}[rng.Intn(3)]}
+			typ := kcacheUpdate
+			if rng.Chance(10) {
+				typ = kcacheDelete
+			}
+			rv := strconv.Itoa(g.nextRV)
+			g.nextRV++
+			if _, err := g.apply(typ, kit.Pod("n0", nm, rv, lab)); err != nil {
+				r.V("C05", "publish-error", "%v", err)
+				return
+			}
+			if i%20 == 19 {
+				g.barrier()
+			}
+		}
+		g.barrier()
+		sent := g.sent
+		for _, m := range mirs {
+			checkExactP(r, "C05", m.name+" (root cache filtered by l=x)", m.events(), sent)
+			m.report(r, "C05")
+			m.reportCacheClause(r)
+			r.Add("leaves", 1)
+		}
+		r.Add("filtered-root-cases", 1)
+		r.Key(id)
+		r.Sample = map[string]interface{}{"published": len(sent)}
+	}}
+}
+
 func init() {
 	register("E6", func(tier string, seed uint64) []Case {
 		var cases []Case
@@ -736,6 +806,9 @@ func init() {
 		}
 		for i := 0; i < tierPick(tier, 18, 1200); i++ {
 			cases = append(cases, e6CatchUpCase(seed, i))
+		}
+		for i := 0; i < tierPick(tier, 24, 1500); i++ {
+			cases = append(cases, e6FilteredRootCase(seed, i))
 		}
 		for i := 0; i < tierPick(tier, 48, 3000); i++ {
 			cases = append(cases, e6MidFilteredCase(seed, i, i%2 == 1))
